@@ -4,6 +4,7 @@ CONSTANTS
   Steps = {1, 2}
   MaxEv = 0
   Depth = 12
+  Mode = "sim"
   Side = {"s"}
 INVARIANT Emit
 CHECK_DEADLOCK FALSE
